@@ -112,6 +112,8 @@ func c05Run(c *Ctx) {
 		id := i
 		t.dev.Yield = func(kind string) { sched.Yield(id) }
 	}
+	harness.SetSyncHooks(sched.SyncYield, sched.LockBlocked)
+	defer harness.SetSyncHooks(nil, nil)
 	sched.Run(func(id int) {
 		t := tasks[id]
 		for j, o := range t.ops {
@@ -139,6 +141,8 @@ func c05Run(c *Ctx) {
 	c.Sched = sched.Digest
 	c.St.C["sched:events"] += sched.Events
 	c.St.C["sched:switches"] += sched.Switches
+	c.St.C["sched:sync-points"] += sched.SyncEvents
+	c.St.C["sched:lock-waits"] += sched.LockWaits
 	c.St.C["sched:tasks"] += int64(nt)
 	if sched.Switches > 0 {
 		c.NonTrivial = true
@@ -244,6 +248,7 @@ func c05Cold(c *Ctx) {
 		id := i
 		t.dev.Yield = func(kind string) { sched.Yield(id) }
 	}
+	harness.SetSyncHooks(sched.SyncYield, sched.LockBlocked)
 	sched.Run(func(id int) {
 		t := tasks[id]
 		o := t.ops[0]
@@ -251,6 +256,7 @@ func c05Cold(c *Ctx) {
 		r := newReader(t.dev, o.data, o.fault(), t.dls[0])
 		t.res[0] = harness.Invoke(o.e, o.spec.New(t.dev), r)
 	})
+	harness.SetSyncHooks(nil, nil)
 	for _, t := range tasks {
 		c.Dev.Seq += t.dev.Seq
 		c.D.Str(t.ops[0].e.Name)
@@ -286,9 +292,10 @@ func init() {
 		Rule: "a run is non-trivial when at least one task switch happened between two device events of different tasks (operations overlapped); " +
 			"distinct = distinct run digests, which fold the schedule digest (sequence of running task ids), every operation's entry point and, in world A, its canonical result",
 		QuickSec: 90, ThoroughSec: 900,
-		Race:     true,
-		HangKind: "stall",
-		Setup:    func(repo, tier string) error { return LoadSamples(repo) },
+		Race:       true,
+		HangKind:   "stall",
+		SyncYields: true,
+		Setup:      func(repo, tier string) error { return LoadSamples(repo) },
 		Assumptions: []string{
 			"interleavings are explored at device-event granularity (every Read/Seek/ReadAt, actor entry/exit); code between two device events is atomic in simulation; torn or reordered accesses are left to the happens-before detector",
 			"world A (plain build, GOMAXPROCS=1) judges results against solo runs on pristine state; world B (-race build, GOMAXPROCS 1/4/16 by worker) judges only the race detector and fatal errors, because the race build's sync.Pool drops Puts at random",
